@@ -110,7 +110,8 @@ theorem preNorm_fields (n : Node) : ListRel FieldEqv n.childFields (Iso.preNorm 
     | exact ⟨rfl, (Iso.emptyKV_getD _).symm⟩
     | exact ⟨rfl, (Iso.normList_getD _).symm⟩
 
-/-- checkLocal: the normal forms only remove reasons to fail -/
+/-- checkLocal: the normal forms only remove reasons to fail (`$defs: {}` beside `definitions` ↦ nil; the test on
+    `$vocabulary` is a test of presence, which `normVocab` keeps: `normVocab_isSome`) -/
 theorem checkLocalOk_preNorm (env : Env) (n : Node) (h : checkLocalOk env n = true) :
     checkLocalOk env (Iso.preNorm n) = true := by
   unfold checkLocalOk basicChecksOk at h ⊢
